@@ -9,6 +9,7 @@ MCLimits == (-1)..(K - 1)
 \* explore the class assignments that are sorted by Rank - every other initial state is a permutation of one of them.
 Rank(c) == (IF c.wraps THEN 1 ELSE 0) + (IF c.errsig THEN 2 ELSE 0) + (IF c.fb = "custom" THEN 4 ELSE 0) + (IF c.side = "server" THEN 8 ELSE 0)
            + (CASE c.outcome = "ok" -> 0 [] c.outcome = "err" -> 16 [] OTHER -> 32)
+           + (CASE c.layer = "node" -> 0 [] c.layer = "pre" -> 64 [] OTHER -> 128)
 MCInit == Init /\ \A r \in 1..(K - 1) : Rank(cls[r]) <= Rank(cls[r + 1])
 MCSpec == MCInit /\ [][Next]_vars
 =============================================================================
